@@ -6,21 +6,26 @@ identity a step allocates, the *origin* of its content, exactly as the code obta
 
 * `TsDB._read` constructs the series of a not-yet-read key `k` of database `d` from the file `register_parent[k]`; the
   extension of that file selects the reader: for index-addressed formats (.ts .tda .bin .asc .dat .csv .pkl) it reads
-  record number `register_indices[k]` (`Origin.record`), for name-addressed formats (.h5 .hdf5 .mat .tdms) it looks the
-  data set up by the name `key.replace(parent, "").lstrip(os.path.sep)` derived from the CURRENT key (`Origin.named`,
-  `relName`).  (`register_indices` is `None` for .h5/.mat and `j+1` for .tdms, but the .tdms reader does not use it.)
+  record number `register_indices[k]` (`Origin.record`); for name-addressed formats (.h5 .hdf5 .mat .tdms)
+  `register_indices[k]` holds the NAME ON FILE registered by `load`, and the reader looks the data set up by that name
+  (`Origin.named`) — since the repair of finding F17 no longer by the name derived from the current key;
 * `TsDB.add(ts)` registers the in-memory object it is given (`Origin.added`);
 * `update` / `copy` with `shallow=False` register `ts.copy()`, a deep copy whose content equals the content of the copied
   object at that time (`Origin.copyOf`; `root` resolves chains of copies).
 
 It also keeps, per database, the dictionary `key ↦ registered record` (`Rec`): written by `load` (file, record number
-`j+1`, name on file; the file's extension gives the addressing mode) and `add`, moved by `rename` (Python `d[new] = d.pop(old)`), erased by `clear`,
-carried over by `update` / `copy`.  This dictionary is the specification ("the record the key was registered for"); the
-theorems of `Lemmas/BindingMain.lean` say that what is read or cached under a key has that record as root origin.
+`j+1`, name on file; the file's extension gives the addressing mode) and `add`, moved by `rename` (Python
+`d[new] = d.pop(old)`), erased by `clear`, carried over by `update` / `copy`.  This dictionary is the specification ("the
+record the key was registered for"); the theorems of `Lemmas/BindingMain.lean` say that what is read or cached under a key
+has that record as root origin.
 
-Assumptions: `str.replace` / `lstrip` as modelled in `Qats.Names`; `os.path.splitext` (`fileExt`); a reader called with record numbers / names returns the
-rows in the order requested (that part is C01's subject).  `rename` moves `register_indices` with the key but the name that
-`_read` will look up changes with the key: for name-addressed files this breaks the binding (finding F17).
+The register `indices` of `Registry.Db` holds record numbers only (`Option Nat`).  The string that `register_indices` holds
+for a name-addressed file is the `name` field of the key's entry in the record dictionary: `load` writes both from the same
+`name`, and `rename` (`pop` / insert), `clear` (`pop`) and `update` / `copy` (assignment from the source database) treat
+`register_indices` exactly as the dictionary is treated here; `readOrigin` therefore takes the looked-up name from it.
+
+Assumptions: `os.path.splitext` (`fileExt`); a reader called with record numbers / names returns the rows in the order
+requested (that part is C01's subject).
 Core Lean only.
 -/
 import Qats.Model.Registry
@@ -90,24 +95,30 @@ def rootFuel (os : Origins) : Nat → Nat → Option Origin
 /-- The root origin of an object: total (a chain of copies cannot be longer than the table). -/
 def root (os : Origins) (obj : Nat) : Option Origin := rootFuel os (os.length + 1) obj
 
-/-- The name `_read` looks up on the parent file: `key.replace(parent, "").lstrip(os.path.sep)`. -/
-def relName (parent key : Str) : Str := (replaceAll parent [] key).dropWhile (· == sep)
+/-- What a reader constructs from parent file, registered record number and registered record. -/
+def originOf (parent : Str) (index : Option Nat) (rc : Option Rec) : Origin :=
+  if nameAddressed parent then
+    .named parent (match rc with
+      | some (.onFile _ _ n) => n
+      | _ => [])
+  else .record parent (index.getD 0)
 
-/-- What `_read` constructs for a key that is not cached. -/
-def readOrigin (d : Db) (k : Str) : Origin :=
-  let parent := ((lookup d.parents k).getD none).getD []
-  if nameAddressed parent then .named parent (relName parent k)
-  else .record parent (((lookup d.indices k).getD none).getD 0)
+/-- `readOriginRc d rc k`: what `_read` constructs for key `k` whose `register_indices` entry is that of record `rc`. -/
+def readOriginRc (d : Db) (rc : Option Rec) (k : Str) : Origin :=
+  originOf (((lookup d.parents k).getD none).getD []) ((lookup d.indices k).getD none) rc
+
+/-- What `_read` constructs for a key that is not cached (`r` = the record dictionary of the database). -/
+def readOrigin (d : Db) (r : List (Str × Rec)) (k : Str) : Origin := readOriginRc d (lookup r k) k
 
 /-- Mirror of `Registry.readKeys`: one new table entry per series constructed. -/
-def readBind (store : Bool) : Db → Nat → List Str → Origins → Origins
+def readBind (store : Bool) (r : List (Str × Rec)) : Db → Nat → List Str → Origins → Origins
   | _, _, [], os => os
   | d, n, k :: ks, os =>
     match lookup d.register k with
-    | some (some _) => readBind store d n ks os
+    | some (some _) => readBind store r d n ks os
     | _ =>
-      readBind store (if store then { d with register := setKey d.register k (some n) } else d) (n + 1) ks
-        (os ++ [(n, readOrigin d k)])
+      readBind store r (if store then { d with register := setKey d.register k (some n) } else d) (n + 1) ks
+        (os ++ [(n, readOrigin d r k)])
 
 /-- Mirror of the deep-copy loops of `update` / `copy`: one fresh object per container entry, a copy of that entry. -/
 def cpBind : List (Str × Nat) → Nat → Origins → Origins
@@ -133,7 +144,7 @@ def step (b : Bind) (s : State) : Op → Bind
       if read then
         -- the database after registration, before reading
         let d1 := getDb (Registry.step s (.load w file names indexed false)).1 w
-        { setRec b w recs with origins := readBind true d1 s.next newKeys b.origins }
+        { setRec b w recs with origins := readBind true recs d1 s.next newKeys b.origins }
       else setRec b w recs
   | .add w name =>
     let d := getDb s w
@@ -159,7 +170,7 @@ def step (b : Bind) (s : State) : Op → Bind
     setRec b w (m.foldl (fun r k => erase r k) (getRec b w))
   | .update names deep =>
     let r := readKeys s.b s.next (select s.b names) true
-    let os1 := readBind true s.b s.next (select s.b names) b.origins
+    let os1 := readBind true b.recB s.b s.next (select s.b names) b.origins
     if r.2.2.any fun kv => hasKey s.a.register kv.1 then { b with origins := os1 }
     else
       { origins := if deep then cpBind r.2.2 r.2.1 os1 else os1,
@@ -167,16 +178,16 @@ def step (b : Bind) (s : State) : Op → Bind
         recB := b.recB }
   | .copy names deep =>
     let r := readKeys s.a s.next (select s.a names) true
-    let os1 := readBind true s.a s.next (select s.a names) b.origins
+    let os1 := readBind true b.recA s.a s.next (select s.a names) b.origins
     { origins := if deep then cpBind r.2.2 r.2.1 os1 else os1,
       recA := b.recA,
       recB := carry b.recA r.2.2 [] }
   | .getm w names store =>
-    { b with origins := readBind store (getDb s w) s.next (select (getDb s w) names) b.origins }
+    { b with origins := readBind store (getRec b w) (getDb s w) s.next (select (getDb s w) names) b.origins }
   | .getInd w ind store =>
     match (getDb s w).keys[ind]? with
     | none => b
-    | some k => { b with origins := readBind store (getDb s w) s.next [k] b.origins }
+    | some k => { b with origins := readBind store (getRec b w) (getDb s w) s.next [k] b.origins }
 
 /-- Registry and binding side by side over a history. -/
 def run (b : Bind) (s : State) : List Op → Bind × State × List Out
@@ -185,34 +196,9 @@ def run (b : Bind) (s : State) : List Op → Bind × State × List Out
     let r := run (step b s op) (Registry.step s op).1 ops
     (r.1, r.2.1, (Registry.step s op).2 :: r.2.2)
 
-/-- The one operation whose effect on the binding is not what the registered record says (finding F17): renaming a key
-that is not cached and whose parent file is name-addressed.  `renameSafe` is true for every other operation. -/
-def renameSafe (s : State) : Op → Bool
-  | .rename w name _ =>
-    match listKeys (getDb s w).keys [name] with
-    | [old] =>
-      (match lookup (getDb s w).register old with
-        | some (some _) => true
-        | _ => false) ||
-      !nameAddressed (((lookup (getDb s w).parents old).getD none).getD [])
-    | _ => true
-  | _ => true
-
-def safeRun (s : State) : List Op → Bool
-  | [] => true
-  | op :: ops => renameSafe s op && safeRun (Registry.step s op).1 ops
-
-/-- A `load` as `TsDB.load` issues it: the names of a name-addressed file are found again from the key (`relName`; true for
-every name that does not start with `/` and does not contain the file path, lemma `relName_pathJoin`), and an
-index-addressed file registers its record numbers. -/
-def namesOK : Op → Bool
-  | .load _ file names indexed _ =>
-    if nameAddressed file then names.all fun n => relName file (pathJoin file n) == n else indexed
-  | _ => true
-
-/-- Operations on index-addressed files only (`load` of a .ts .tda .bin .asc .dat .csv .pkl file; everything else). -/
-def indexedOp : Op → Bool
-  | .load _ file _ indexed _ => !nameAddressed file && indexed
+/-- A `load` as `TsDB.load` issues it: a file that is not name-addressed registers its record numbers. -/
+def loadOK : Op → Bool
+  | .load _ file _ indexed _ => nameAddressed file || indexed
   | _ => true
 
 /-- Does the binding hold for key `k` of database `d`? (decidable form of the invariant, for examples) -/
@@ -222,7 +208,7 @@ def keyBound (os : Origins) (d : Db) (r : List (Str × Rec)) (k : Str) : Bool :=
   | some rc =>
     match lookup d.register k with
     | some (some o) => root os o == some rc.origin
-    | _ => readOrigin d k == rc.origin
+    | _ => readOrigin d r k == rc.origin
 
 def allBound (b : Bind) (s : State) : Bool :=
   s.a.keys.all (keyBound b.origins s.a b.recA) && s.b.keys.all (keyBound b.origins s.b b.recB)
